@@ -804,10 +804,13 @@ pub fn main(args: &Args, out: &mut dyn Write) {
     let mut hist: BTreeMap<String, usize> = BTreeMap::new();
     let mut fam: BTreeMap<&'static str, usize> = BTreeMap::new();
     let mut lens: BTreeMap<usize, usize> = BTreeMap::new();
+    let replay_simseed: Option<u64> = args.replay.as_ref().and_then(|pth| {
+        util::read_case_file(pth).cfg.iter().find(|(k, _)| k == "simseed").and_then(|(_, v)| v.parse().ok())
+    });
     for (n, case) in cases.iter().enumerate() {
-        let seed = rng.next();
+        let seed = replay_simseed.unwrap_or_else(|| rng.next());
         writeln!(out, "CASE {n} family={} seed={seed}", case.family).unwrap();
-        writeln!(out, "CFG backend={}", case.backend).unwrap();
+        writeln!(out, "CFG backend={} simseed={seed}", case.backend).unwrap();
         let lines = run_case(case, seed);
         for l in &lines {
             writeln!(out, "{l}").unwrap();
